@@ -193,6 +193,10 @@ def run(ctx):
     # keystream rule of C11 (block counter over all eight little-endian bytes, block range, offsets), shared here
     from rules import c11
     c11.run_fill(ctx)
+    # the combiner adds the two verifier shares with merge_vector: shares of different lengths (different rounds) must be
+    # refused, not truncated (shared with C13)
+    from rules import c13
+    c13.merge_vector_rules(ctx, "R-C04.G.merge_vector")
     rule = "R-C04.T.verify_next"
     try:
         f = ctx.fn(rule, name="verify_next", trait="Aggregator", self_adt=POPLAR1)
